@@ -245,6 +245,19 @@ impl Property for C17 {
             .prop_map(|(sampler, stakes, k, seed, draws, max_samples_x10, fanout)| Case { sampler, stakes, k, seed, draws, max_samples_x10, fanout })
             .boxed()
     }
+    fn regressions(&self) -> Vec<Case> {
+        let c = |sampler, stakes, k| Case { sampler, stakes, k, seed: 1, draws: 1, max_samples_x10: 20, fanout: 3 };
+        vec![
+            // known findings (construction panics)
+            c(Sampler::Partition, Stakes::Small { v: vec![1, 1] }, 64),
+            c(Sampler::Fa2, Stakes::Equal { n: 5, s: 1 }, 64),
+            c(Sampler::Fa1Partition, Stakes::Small { v: vec![11, 8, 12, 15, 15, 3, 2, 9, 4, 6] }, 28),
+            c(Sampler::Turbine, Stakes::Equal { n: 1, s: 1 }, 64),
+            c(Sampler::Turbine, Stakes::Small { v: vec![18, 12] }, 64),
+            // fixed defect: exact seat boundary lost in floating point
+            c(Sampler::Fa1StakeWeighted, Stakes::EqualDividing { n: 49, m: 1, s: 1 }, 49),
+        ]
+    }
     fn run(&self, case: &Case) -> Outcome {
         let mut out = Outcome::default();
         let mut case = case.clone();
